@@ -41,7 +41,8 @@ type scen struct {
 	workers   int
 	bound     int
 	batch     int
-	join      bool // a join action on field l (start ^S, continue ^C) in the pipeline
+	flush     time.Duration // flush timeout of the sink's batcher (default 200ms)
+	join      bool          // a join action on field l (start ^S, continue ^C) in the pipeline
 }
 
 func line(stream, id string) string {
@@ -96,16 +97,17 @@ func savedStreams(content string) map[string]int64 {
 type output struct {
 	b     *pipeline.Batcher
 	count int
+	flush time.Duration
 }
 
 func (p *output) Start(_ pipeline.AnyConfig, params *pipeline.OutputPluginParams) {
 	p.b = pipeline.NewBatcher(pipeline.BatcherOptions{PipelineName: "verif", OutputType: "verif", Controller: params.Controller, Workers: 1,
-		BatchSizeCount: p.count, FlushTimeout: 200 * time.Millisecond, MetricCtl: params.MetricCtl,
+		BatchSizeCount: p.count, FlushTimeout: p.flush, MetricCtl: params.MetricCtl,
 		OutFn: func(_ *pipeline.WorkerData, b *pipeline.Batch) {
 			vsched.Point("send")
 			for _, e := range b.VerifEvents() {
 				if n := e.Root.Dig("l"); n != nil {
-					w.delivered[w.lifetime][n.AsString()]++
+					w.delivered[w.lifetime][strings.Clone(n.AsString())]++ // AsString aliases the pooled event buffer
 				}
 			}
 		}})
@@ -210,8 +212,12 @@ func startLifetime(n int) (*pipeline.Pipeline, *file.Plugin) {
 	if batch == 0 {
 		batch = 1
 	}
+	flush := sc.flush
+	if flush == 0 {
+		flush = 200 * time.Millisecond
+	}
 	p.SetOutput(&pipeline.OutputPluginInfo{PluginStaticInfo: &pipeline.PluginStaticInfo{Type: "verif-out"},
-		PluginRuntimeInfo: &pipeline.PluginRuntimeInfo{Plugin: &output{count: batch}}})
+		PluginRuntimeInfo: &pipeline.PluginRuntimeInfo{Plugin: &output{count: batch, flush: flush}}})
 	if sc.join {
 		ainfo, err := fd.DefaultPluginRegistry.GetActionByType("join")
 		if err != nil {
@@ -312,7 +318,7 @@ func check(sc scen, x *vsched.Exec) []vexplore.Finding {
 		fs = append(fs, f)
 	}
 	if x.Verdict == vsched.VHorizon {
-		fs = append(fs, vexplore.Finding{Clause: "wedged", Features: feats(), Detail: "lifetime 1 did not deliver every written line before the horizon although nothing was killed: " + missing() + " | " + strings.Join(x.Blocked, "; ")})
+		fs = append(fs, vexplore.Finding{Clause: "wedged", Features: feats(), Detail: fmt.Sprintf("lifetime 1 did not deliver every written line before the horizon although nothing was killed: missing %s, delivered %v, written %v, history step %d/%d | %s", missing(), keys(w.delivered[1]), w.written, w.nextStep, len(sc.steps), strings.Join(x.Blocked, "; "))})
 		return fs
 	}
 	if x.Verdict != vsched.VStopped {
@@ -487,6 +493,21 @@ func scenarios(thorough bool) []scen {
 		{name: "two-files", initial: map[string]string{a: line("", "a1") + line("", "a2"), b: line("", "b1")}, bound: 1},
 		{name: "truncate-then-write", initial: map[string]string{a: line("", "a1") + line("", "a2")}, watch: true, truncated: true, sync: true, bound: 1, steps: []step{
 			{op: "truncate", path: a, pause: 700 * time.Millisecond}, {op: "append", path: a, data: line("", "t1")}, {op: "notify", kind: "write", path: a}}},
+		// truncation while an event read before it is still unacknowledged (the batch waits for its flush timeout):
+		// its late commit must not bring the old offset back, otherwise the lines written afterwards are skipped
+		{name: "truncate-with-inflight-event", initial: map[string]string{a: line("", "a1") + line("", "a2") + line("", "a3")}, watch: true, truncated: true, sync: true, batch: 2, bound: 1, steps: []step{
+			{op: "truncate", path: a, pause: 100 * time.Millisecond}, {op: "notify", kind: "write", path: a},
+			{op: "append", path: a, data: line("", "t1"), pause: 400 * time.Millisecond}, {op: "notify", kind: "write", path: a},
+			{op: "append", path: a, data: line("", "t2"), pause: 100 * time.Millisecond}, {op: "notify", kind: "write", path: a}}},
+		// no notification: the maintenance timer resumes the job, the worker's pass reads nothing and detects the truncation
+		// at EOF, while the third line is still waiting in a slow (1s flush) half-filled batch
+		{name: "truncate-found-at-eof-inflight", initial: map[string]string{a: line("", "a1") + line("", "a2") + line("", "a3")}, truncated: true, sync: true, batch: 2, flush: time.Second, bound: 1, steps: []step{
+			{op: "truncate", path: a, pause: 100 * time.Millisecond},
+			{op: "append", path: a, data: line("", "t1"), pause: 1500 * time.Millisecond},
+			{op: "append", path: a, data: line("", "t2"), pause: 100 * time.Millisecond}}},
+		{name: "truncate-two-streams-inflight", initial: map[string]string{a: line("x", "a1") + line("y", "a2") + line("x", "a3")}, watch: true, truncated: true, sync: true, batch: 2, bound: 1, steps: []step{
+			{op: "truncate", path: a, pause: 100 * time.Millisecond}, {op: "notify", kind: "write", path: a},
+			{op: "append", path: a, data: line("y", "t1") + line("x", "t2"), pause: 400 * time.Millisecond}, {op: "notify", kind: "write", path: a}}},
 	}
 	if thorough {
 		// kill plus one more deviation: lets one stream run ahead of the other before the kill
